@@ -444,4 +444,20 @@ def check(run):
                             "runs); non-trivial = at least two tests with dependencies, or an invalid graph")
 
 
-replay = propcommon.make_replay(runoracle.c04_oracle)
+_replay_case = propcommon.make_replay(runoracle.c04_oracle)
+
+
+def replay(path):
+    """replays of the run model are re-simulated; the replays of the declared-dependency differentials (no project in them)
+    re-run the whole quick check on the current tree"""
+    import json
+    import os
+    import lib
+    r = json.load(open(path))
+    rp = r.get("replay") or {}
+    first = (r.get("broken") or [{}])[0].get("case") or {}
+    if ("declared" in rp or "decl" in rp or "declared" in first or "decl" in first) and "project" not in rp and "project" not in first:
+        import subprocess
+        rc = subprocess.call([os.path.join(lib.ROOT, "check"), "C04", "--tier", "quick"])
+        return 1 if rc else 0
+    return _replay_case(path)
